@@ -256,7 +256,7 @@ def label_case(ctx, tree, value, pv):
 
 VSB_SIZES = (0, 1, 126, 127, 128, 129, 255, 256, 16383, 16384, 16385, 2 ** 21 - 1, 2 ** 21, 2 ** 21 + 1)
 VSB_ETYPES = ("text", "ascii", "blob", "varint", "decimal", "list", "set", "map", "tuple")
-_VSB_BIG_OK = ("text", "blob", "list")          # 2 MiB elements only where the driver's codec is linear
+_VSB_BIG_OK = ("text", "list")                  # 2 MiB elements only where the driver's codec is linear (and only a few: CPU budget)
 _VSB_LAYOUTS = ((1, 0), (2, 0), (2, 1), (3, 0), (3, 1), (3, 2))     # (dimension, position of the sized element)
 
 
@@ -305,7 +305,7 @@ def vsb_cases(etype):
             continue
         if sized_element(etype, size) is None:
             continue
-        for dim, pos in (((1, 0), (2, 1)) if big else _VSB_LAYOUTS):
+        for dim, pos in ((((1, 0), (2, 1)) if size == 2 ** 21 else ((2, 1),)) if big else _VSB_LAYOUTS):
             yield {"etype": etype, "size": size, "dim": dim, "pos": pos, "pv": 4 if (size + dim) % 2 else 5}
 
 
